@@ -13,7 +13,10 @@ Output: lean/HailVerif/Generated/ScalaStats.lean — every translated member TWI
                     read over ℚ and τ = 0 the idealised code without truncation, about which Props/C37.lean proves its theorems
   namespace Flt   : Double ↦ Float (IEEE double), same operation order, literals emitted by their correctly rounded bit pattern
 
-Scala `Int`/`Long` ↦ Lean `Int` (no 32-bit overflow: assumption), `/` `%` on Int ↦ truncating `idiv` `imod`;
+Scala `Int`/`Long` ↦ Lean `Int`: unbounded in `Exact` (theorems carry the side condition StatsSpec.int32Safe), wrapping 32-/64-bit in `Flt`
+(i32add, i64mul, … with Int → Double widening exactly where the static types put it); `/` `%` only by non-zero literals (truncating);
+`d.toInt`/`d.toLong` = saturating truncation toward zero, `math.round/floor/ceil/abs/min/max`; every Int arithmetic operation is listed in the
+generated `intArith` inventory (Props/C37.lean proves chiSquaredTest / contingencyTableTest have none);
 `LazyList[Double]` ↦ fuel-truncated `List` (StatsLib.unfold); functions that can throw (`fatal`, `require`, `assert`, MatchError) or
 take fisherExactTest's early `return Array(NaN, …)` return `StatsLib.Out`; library calls that are not repository code
 (HypergeometricDistribution methods, ChiSquare.cumulative, and the log/exp block `logdc`/`dnhyper`, which is pinned textually)
@@ -82,6 +85,30 @@ def _strip(node):
     return node
 
 
+def render(e) -> str:
+    """Scala-like text of an expression (for the inventory of Int arithmetic)"""
+    k = e[0]
+    if k == 'num':
+        return e[1]
+    if k == 'name':
+        return e[1]
+    if k == 'str':
+        return '"' + e[1] + '"'
+    if k == 'ph':
+        return '_'
+    if k == 'binop':
+        return f'({render(e[2])} {e[1]} {render(e[3])})'
+    if k == 'unop':
+        return f'{e[1]}{render(e[2])}'
+    if k == 'sel':
+        return f'{render(e[1])}.{e[2]}'
+    if k == 'call':
+        return f'{render(e[1])}(' + ', '.join(render(a) for (_n, a) in e[2]) + ')'
+    if k == 'if':
+        return f'if ({render(e[1])}) {render(e[2])} else {render(e[3]) if e[3] else "()"}'
+    return f'<{k}>'
+
+
 class V:
     __slots__ = ('term', 'ty', 'out')
 
@@ -102,7 +129,7 @@ class Member:
         self.done = {}       # dom -> dict(rty, out, uses_lib, text)
 
 
-_SCALA_TYPES = {'Int': 'Int', 'Long': 'Int', 'Double': 'Dbl', 'Boolean': 'Bool', 'String': 'Str', 'LazyList[Double]': ('List', 'Dbl'),
+_SCALA_TYPES = {'Int': 'Int', 'Long': 'Long', 'Double': 'Dbl', 'Boolean': 'Bool', 'String': 'Str', 'LazyList[Double]': ('List', 'Dbl'),
                 'Array[Double]': ('List', 'Dbl'), 'Array[Int]': ('List', 'Int'), 'LeveneHaldane': 'LH', 'RandomGenerator': 'Erased'}
 
 
@@ -113,7 +140,7 @@ class Dom:
         self.ns = 'Exact' if q else 'Flt'
 
     def ty(self, t) -> str:
-        if t == 'Int':
+        if t in ('Int', 'Long'):
             return 'Int'
         if t == 'Dbl':
             return self.num
@@ -161,6 +188,7 @@ class Compiler:
         self.fresh = 0
         self.uses_lib = False
         self.skipped: List[str] = []
+        self.int_ops: List[str] = []
 
     def fail(self, why):
         raise TieBroken(f'{self.m.fname}:{self.m.d.line0}-{self.m.d.line1}: {self.m.cont}.{self.m.d.name}: {why}')
@@ -187,8 +215,10 @@ class Compiler:
     def coerce(self, v: V, ty) -> V:
         if v.ty == ty:
             return v
-        if v.ty == 'Int' and ty == 'Dbl':
+        if v.ty in ('Int', 'Long') and ty == 'Dbl':
             return self.strict([v], lambda n: self.dom.conv(n[0]), 'Dbl')
+        if v.ty == 'Int' and ty == 'Long':
+            return V(v.term, 'Long', v.out)
         self.fail(f'cannot use a value of type {v.ty} as {ty}')
 
     def scala_type(self, text: Optional[str]):
@@ -405,8 +435,12 @@ class Compiler:
         k = e[0]
         if k == 'num':
             txt = e[1]
-            if txt.isdigit() or (txt[:-1].isdigit() and txt[-1] in 'lL'):
-                return V(f'({int(txt.rstrip("lL"))} : Int)', 'Int')
+            if txt.isdigit():
+                if int(txt) >= 2 ** 31:
+                    self.fail(f'Int literal {txt} out of range')
+                return V(f'({int(txt)} : Int)', 'Int')
+            if txt[:-1].isdigit() and txt[-1] in 'lL':
+                return V(f'({int(txt[:-1])} : Int)', 'Long')
             return V(self.dom.lit(txt), 'Dbl')
         if k == 'str':
             if '"' in e[1] or '\\' in e[1]:
@@ -439,8 +473,13 @@ class Compiler:
                 if v.ty != 'Bool':
                     self.fail('! on a non-Boolean')
                 return self.strict([v], lambda n: f'(!{n[0]})', 'Bool')
-            if v.ty not in ('Int', 'Dbl'):
+            if v.ty not in ('Int', 'Long', 'Dbl'):
                 self.fail('unary - on a non-number')
+            if v.ty != 'Dbl':
+                self.int_ops.append(render(e))
+                if not self.dom.q:
+                    f = 'i32neg' if v.ty == 'Int' else 'i64neg'
+                    return self.strict([v], lambda n: f'({f} {n[0]})', v.ty)
             return self.strict([v], lambda n: f'(-{n[0]})', v.ty)
         if k == 'binop':
             return self.binop(e[1], e[2], e[3], env)
@@ -489,23 +528,32 @@ class Compiler:
                 self.fail('`to` on non-Ints')
             return self.strict([a, b], lambda n: f'(rangeIncl {n[0]} {n[1]})', ('List', 'Int'))
         if op in ('+', '-', '*', '/', '%'):
-            if a.ty == 'Int' and b.ty == 'Int':
-                if op == '/':
-                    return self.strict([a, b], lambda n: f'(idiv {n[0]} {n[1]})', 'Int')
-                if op == '%':
-                    return self.strict([a, b], lambda n: f'(imod {n[0]} {n[1]})', 'Int')
-                return self.strict([a, b], lambda n: f'({n[0]} {op} {n[1]})', 'Int')
-            if a.ty not in ('Int', 'Dbl') or b.ty not in ('Int', 'Dbl') or op == '%':
+            if a.ty in ('Int', 'Long') and b.ty in ('Int', 'Long'):
+                rt = 'Long' if 'Long' in (a.ty, b.ty) else 'Int'
+                self.int_ops.append(render(('binop', op, ea, eb)))
+                if op in ('/', '%'):
+                    # JVM: ArithmeticException on a zero divisor — only non-zero literal divisors are admitted
+                    if not (eb[0] == 'num' and eb[1].rstrip('lL').isdigit() and int(eb[1].rstrip('lL')) != 0):
+                        self.fail(f'integer {op} by a divisor that is not a non-zero literal')
+                if self.dom.q:
+                    if op == '/':
+                        return self.strict([a, b], lambda n: f'(idiv {n[0]} {n[1]})', rt)
+                    if op == '%':
+                        return self.strict([a, b], lambda n: f'(imod {n[0]} {n[1]})', rt)
+                    return self.strict([a, b], lambda n: f'({n[0]} {op} {n[1]})', rt)
+                f = ('i32' if rt == 'Int' else 'i64') + {'+': 'add', '-': 'sub', '*': 'mul', '/': 'div', '%': 'mod'}[op]
+                return self.strict([a, b], lambda n: f'({f} {n[0]} {n[1]})', rt)
+            if a.ty not in ('Int', 'Long', 'Dbl') or b.ty not in ('Int', 'Long', 'Dbl') or op == '%':
                 self.fail(f'operator {op} on {a.ty}, {b.ty}')
             a, b = self.coerce(a, 'Dbl'), self.coerce(b, 'Dbl')
             return self.strict([a, b], lambda n: f'({n[0]} {op} {n[1]})', 'Dbl')
         if op in ('==', '!=', '<', '<=', '>', '>='):
             if a.ty == 'Str' and b.ty == 'Str' and op in ('==', '!='):
                 r = self.strict([a, b], lambda n: f'decide ({n[0]} = {n[1]})', 'Bool')
-            elif a.ty == 'Int' and b.ty == 'Int':
+            elif a.ty in ('Int', 'Long') and b.ty in ('Int', 'Long'):
                 lop = '=' if op == '==' else '≠' if op == '!=' else op
                 return self.strict([a, b], lambda n: f'decide ({n[0]} {lop} {n[1]})', 'Bool')
-            elif a.ty in ('Int', 'Dbl') and b.ty in ('Int', 'Dbl'):
+            elif a.ty in ('Int', 'Long', 'Dbl') and b.ty in ('Int', 'Long', 'Dbl'):
                 a, b = self.coerce(a, 'Dbl'), self.coerce(b, 'Dbl')
                 if op in ('==', '!='):
                     r = self.strict([a, b], lambda n: self.dom.eq(n[0], n[1]), 'Bool')
@@ -528,8 +576,25 @@ class Compiler:
         if t == 'Int':
             if sel == 'toDouble':
                 return self.coerce(v, 'Dbl')
-            if sel in ('toInt', 'toLong'):
+            if sel == 'toInt':
                 return v
+            if sel == 'toLong':
+                return V(v.term, 'Long', v.out)
+        if t == 'Long':
+            if sel == 'toDouble':
+                return self.coerce(v, 'Dbl')
+            if sel == 'toLong':
+                return v
+            if sel == 'toInt':          # narrowing: the low 32 bits
+                if self.dom.q:
+                    return V(v.term, 'Int', v.out)
+                return self.strict([v], lambda n: f'(wrap32 {n[0]})', 'Int')
+        if t == 'Dbl':
+            if sel == 'toDouble':
+                return v
+            if sel in ('toInt', 'toLong'):    # truncation toward zero, saturating, NaN -> 0
+                f = 'truncQ' if self.dom.q else ('dblToInt32' if sel == 'toInt' else 'dblToInt64')
+                return self.strict([v], lambda n: f'({f} {n[0]})', 'Int' if sel == 'toInt' else 'Long')
         if isinstance(t, tuple) and t[0] == 'List':
             if sel == 'sum' and t[1] == 'Dbl':
                 return self.strict([v], lambda n: f'(sumL {n[0]})', 'Dbl')
@@ -694,15 +759,27 @@ class Compiler:
                 vs = [self.expr(a, env) for (_n, a) in args]
                 if sel == 'round' and len(vs) == 1:
                     v = self.coerce(vs[0], 'Dbl')
-                    return self.strict([v], lambda a: f'({"roundQ" if self.dom.q else "roundF"} {a[0]})', 'Int')
+                    return self.strict([v], lambda a: f'({"roundQ" if self.dom.q else "roundF"} {a[0]})', 'Long')
                 if sel == 'abs' and len(vs) == 1 and vs[0].ty == 'Dbl':
                     return self.strict(vs, lambda a: f'({"absQ" if self.dom.q else "Float.abs"} {a[0]})', 'Dbl')
+                if sel == 'abs' and len(vs) == 1 and vs[0].ty in ('Int', 'Long'):
+                    self.int_ops.append(render(e))
+                    w = 'wrap32' if vs[0].ty == 'Int' else 'wrap64'
+                    if self.dom.q:
+                        return self.strict(vs, lambda a: f'(Int.ofNat (Int.natAbs {a[0]}))', vs[0].ty)
+                    return self.strict(vs, lambda a: f'({w} (Int.ofNat (Int.natAbs {a[0]})))', vs[0].ty)
+                if sel in ('floor', 'ceil') and len(vs) == 1:
+                    v = self.coerce(vs[0], 'Dbl')
+                    f = {('floor', True): 'floorQ', ('ceil', True): 'ceilQ', ('floor', False): 'Float.floor', ('ceil', False): 'Float.ceil'}[(sel, self.dom.q)]
+                    return self.strict([v], lambda a: f'({f} {a[0]})', 'Dbl')
                 if sel in ('max', 'min') and len(vs) == 2:
-                    if vs[0].ty == 'Int' and vs[1].ty == 'Int':
-                        return self.strict(vs, lambda a: f'({sel} {a[0]} {a[1]})', 'Int')
+                    if vs[0].ty in ('Int', 'Long') and vs[1].ty in ('Int', 'Long'):
+                        rt = 'Long' if 'Long' in (vs[0].ty, vs[1].ty) else 'Int'
+                        return self.strict(vs, lambda a: f'({sel} {a[0]} {a[1]})', rt)
                     vs = [self.coerce(v, 'Dbl') for v in vs]
                     if sel == 'max':
                         return self.strict(vs, lambda a: f'({"max" if self.dom.q else "fmax"} {a[0]} {a[1]})', 'Dbl')
+                    return self.strict(vs, lambda a: f'({"min" if self.dom.q else "fmin"} {a[0]} {a[1]})', 'Dbl')
                 self.fail(f'math.{sel} is outside the subset')
             rv = self.expr(recv, env)
             t = rv.ty
@@ -887,7 +964,7 @@ class Translator:
         slice_note = f'; sliced on `pvalue`, skipped: {", ".join(sorted(c.skipped))}' if c.skipped else ''
         text = (f'/-- `{m.d.name}` — {m.fname}:{m.d.line0}-{m.d.line1} (sha1 of the text {h}){slice_note} -/\n'
                 f'def {m.lean}{" " + binders if binders else ""} : {rty} :=\n  {v.term}\n')
-        info = {'rty': v.ty, 'out': v.out, 'uses_lib': c.uses_lib, 'text': text, 'skipped': c.skipped}
+        info = {'rty': v.ty, 'out': v.out, 'uses_lib': c.uses_lib, 'text': text, 'skipped': c.skipped, 'int_ops': c.int_ops}
         m.done[key] = info
         self.order[key].append(m)
         self.in_progress.discard(ident)
@@ -920,6 +997,16 @@ class Translator:
                 out.append(m.done[key]['text'])
             out.append(f'end {dom.ns}')
             out.append('')
+            if key == 'Q':
+                out.append('/-- every `Int` / `Long` arithmetic operation (`+ - * / %`, unary `-`, `abs`) the translated members perform, as Scala text:')
+                out.append('on these (and only these) the exact model over ℤ and the JVM can differ, namely when a result leaves the 32-bit (Int) or 64-bit (Long) range -/')
+                out.append('def intArith : List (String × List String) := [')
+                rows = []
+                for m in self.order[key]:
+                    ops = m.done[key]['int_ops']
+                    rows.append(f'  ("{m.lean}", [' + ', '.join('"' + o.replace('"', "'") + '"' for o in ops) + '])')
+                out.append(',\n'.join(rows) + ']')
+                out.append('')
         out.append('end HailVerif.Generated.ScalaStats')
         names = [m.lean for m in self.order['Q']]
         sk = sorted({s for m in self.order['Q'] for s in m.done['Q']['skipped']})
